@@ -538,7 +538,10 @@ func (w *World) listed(cb *SimCallback, target string, phase string) bool {
 		return cb.target == 1 && cb.time >= 1 && tk == 'C'
 	case ownColumn:
 		if cb.col < 1 {
-			return false
+			// the defaults column is a column: a callback registered on it for
+			// itself fires like any other column's.  (Whether its CELL callbacks
+			// fire for body cells is not stated.)
+			return cb.target == 0 && (cb.time == 1 || cb.time == 3) && tk == 'K'
 		}
 		if cb.target == 0 {
 			return (cb.time == 1 || cb.time == 3) && tk == 'K'
@@ -574,7 +577,7 @@ func (w *World) expectedRenderPass() []cbExpect {
 	}
 	nc := w.Core.NColumns()
 	add(w.regsAt(ownTable, 1, 0, nil), "T")
-	for n := 1; n <= nc; n++ {
+	for n := 0; n <= nc; n++ {
 		nn := n
 		add(w.regsAt(ownColumn, 1, 0, func(cb *SimCallback) bool { return cb.col == nn }), "K"+strconv.Itoa(n))
 	}
@@ -606,7 +609,7 @@ func (w *World) expectedRenderPass() []cbExpect {
 		}
 		add(w.regsAt(ownRow, 3, 0, isRow), rowName(mr))
 	}
-	for n := 1; n <= nc; n++ {
+	for n := 0; n <= nc; n++ {
 		nn := n
 		add(w.regsAt(ownColumn, 3, 0, func(cb *SimCallback) bool { return cb.col == nn }), "K"+strconv.Itoa(n))
 	}
